@@ -31,7 +31,13 @@ class Contract:
         self.replay = kw.pop("replay", None)
         self.fresh_result = kw.pop("fresh_result", False)  # result is a newly allocated object
         self.defaults = kw.pop("defaults", {})  # param -> python source of default
-        self.known = kw.pop("known", {})  # ensures/raises label -> known-finding id (region handled in known_findings.json)
+        self.known = kw.pop("known", {})
+        self.local_sorts = kw.pop("local_sorts", {})
+        self.ghost_init = kw.pop("ghost_init", None)
+        self.ghost_vars = kw.pop("ghost_vars", [])
+        self.pools = kw.pop("pools", {})  # bounded search: value pools per parameter / record field
+        self.oracle = kw.pop("oracle", None)  # bounded search: executable oracle in /verif/oracles.py
+        self.needs = kw.pop("needs", {})  # ensures label -> invariant labels revealed to the solver (others hidden)  # ensures/raises label -> known-finding id (region handled in known_findings.json)
         if kw:
             raise TypeError("unknown contract keys %r" % list(kw))
 
